@@ -54,7 +54,7 @@ fn two_different(c: &mut Choices) -> ((String, String), (String, String)) {
     }
 }
 
-pub const N_SNIPPETS: usize = 42;
+pub const N_SNIPPETS: usize = 43;
 
 pub fn snippet(k: usize, c: &mut Choices) -> Snippet {
     let mut decls = String::new();
@@ -541,6 +541,18 @@ pub fn snippet(k: usize, c: &mut Choices) -> Snippet {
                 _ => "let zz = 192.168.0.0;\nlet zzl: u8 = 16;\nzz /= zzl;\n",
             };
             ("compound-assignment-whose-result-has-another-type", s.to_string())
+        }
+        42 => {
+            // nothing can be named through a type parameter: `T.nope` is an unknown name
+            let d = match c.below(5) {
+                0 => "record ZzP[T] {\n    x: T.nope,\n}\n",
+                1 => "enum ZzE[T] {\n    A(T.nope.more),\n    B,\n}\n",
+                2 => "record ZzQ[T] {\n    x: List[T.inner],\n}\n",
+                3 => "record ZzR[A, B] {\n    a: A,\n    b: B.A,\n}\n",
+                _ => "enum ZzF[T] {\n    A(T?),\n    B(T.T),\n}\n",
+            };
+            decls.push_str(d);
+            ("name-after-a-type-parameter", "let zz = 1;\n".to_string())
         }
         _ => {
             let s = match c.below(3) {
